@@ -130,6 +130,12 @@ def main(tier, seed, replay=None):
         calls_l.append(calls)
     workdir = os.path.join(COQ, "run", "C16")
     results = run_harness(binp, "mbuilder", cases, workdir, timeout_ms=10000)
+    rel = release_differences("mbuilder", cases, results, workdir, timeout_ms=10000, with_index=True)
+    for k, c, rr in rel:        # release-profile runs that differ from the dev profile are judged like any other
+        progs.append(progs[k])
+        calls_l.append(calls_l[k])
+        results.append(rr)
+    run.coverage["release_profile_cases_differing_from_dev"] = len(rel)
     terms, idx = [], []
     arities = {}
     distinct = set()
